@@ -122,6 +122,9 @@ def run_property(prop: str, tier: str, seed: int, repo: Repo = None, write_evide
 
     out(f"gbsa property={prop} tier={tier} repo={repo.root} files={stats['files']} "
         f"functions={stats['functions']} njit={stats['njit_functions']} calls={stats['call_expressions']}")
+    for note in getattr(repo, "normalisation_notes", []):
+        # what the normaliser did to the source before the rules ran (e.g. a renamed private function analysed under its old name)
+        out(f"  normalised: {note}")
     n_obl = n_dis = 0
     for res in results:
         n_obl += res.n_obligations
